@@ -2778,6 +2778,53 @@ func runBounds(r *core.Run) {
 		}
 	}
 	sort.Slice(helpers, func(i, j int) bool { return fnLabel(helpers[i]) < fnLabel(helpers[j]) })
+	// the analyses of a function under the contexts in which the scope can reach it: a function of the scope itself is
+	// analysed for every argument; a helper once per call site of each context of its caller (transitively)
+	isHelper := map[*ssa.Function]bool{}
+	for _, h := range helpers {
+		isHelper[h] = true
+	}
+	ctxCache := map[*ssa.Function][]*boundsFn{}
+	var contexts func(f *ssa.Function, depth int) []*boundsFn
+	contexts = func(f *ssa.Function, depth int) []*boundsFn {
+		if c, ok := ctxCache[f]; ok {
+			return c
+		}
+		ctxCache[f] = nil
+		var out []*boundsFn
+		if !isHelper[f] {
+			if b := e.get(f); b != nil {
+				out = []*boundsFn{b}
+			}
+		} else if depth < 4 {
+			for _, c := range callersIn[f] {
+				for _, cg := range contexts(c.Parent(), depth+1) {
+					d := cg.stateBefore(c)
+					if d == nil {
+						continue // unreachable in that context
+					}
+					seed, key := cg.callSeed(d, c)
+					if seed == nil {
+						if b := e.get(f); b != nil {
+							out = append(out, b) // nothing known about the arguments: the context-free analysis
+						}
+						continue
+					}
+					if s := e.summCtx(f, seed, key); s != nil {
+						if cb := e.ctxFns[fmt.Sprintf("%p|%s", f, key)]; cb != nil {
+							out = append(out, cb)
+							continue
+						}
+					}
+					if b := e.get(f); b != nil {
+						out = append(out, b)
+					}
+				}
+			}
+		}
+		ctxCache[f] = out
+		return out
+	}
 	nh := 0
 	for _, h := range helpers {
 		b := e.get(h)
@@ -2788,10 +2835,20 @@ func runBounds(r *core.Run) {
 		for _, ob := range b.obligations() {
 			nob++
 			ok := ob.ok
-			if !ok && ob.in != nil && len(callersIn[h]) > 0 {
-				ok = true
-				for _, c := range callersIn[h] {
-					if !e.provenInContext(c, h, ob.in) {
+			if !ok && ob.in != nil {
+				cs := contexts(h, 0)
+				ok = len(cs) > 0
+				for _, cb := range cs {
+					found := false
+					for _, o2 := range cb.obligations() {
+						if o2.in == ob.in {
+							found = true
+							if !o2.ok {
+								ok = false
+							}
+						}
+					}
+					if !found {
 						ok = false
 					}
 				}
